@@ -151,3 +151,26 @@ func isDir(fs afero.Fs, name string) bool {
 	info, err := fs.Stat(name)
 	return err == nil && info.IsDir()
 }
+
+// removeTree removes the directory name and everything below it. afero's
+// RemoveAll is not used for this: on MemMapFs (afero 1.2) it removes every
+// path that merely starts with the same characters, so removing "b1" would
+// take "b12" with it.
+func removeTree(fs afero.Fs, name string) error {
+	entries, err := afero.ReadDir(fs, name)
+	if err != nil {
+		return err
+	}
+	for _, entry := range entries {
+		child := filepath.Join(name, entry.Name())
+		if entry.IsDir() {
+			err = removeTree(fs, child)
+		} else {
+			err = fs.Remove(child)
+		}
+		if err != nil {
+			return err
+		}
+	}
+	return fs.Remove(name)
+}
